@@ -64,7 +64,7 @@ type vfC05 struct {
 	returned  map[uint32]uint32 // reply token -> exchange token that returned it
 	nextTok   uint32
 	nextRTok  uint32
-	stats     struct{ overlap, reorder, dup, unsolicited, late, closes, retried, replyAndClose, cutOff int }
+	stats     struct{ overlap, reorder, dup, unsolicited, late, closes, retried, replyAndClose, cutOff, flood int }
 }
 
 func (h *vfC05) scan() {
@@ -402,6 +402,93 @@ func TestVfC05Pipeline(t *testing.T) {
 				}
 				h.settle()
 			},
+			// Every exchange waiting on one connection is answered in one go: on a stream the frames arrive back to back in
+			// one piece (or two, cut anywhere), more of them than any read buffer holds, of sizes that put frame boundaries
+			// anywhere relative to it.
+			"replyFlood": func(t *rapid.T) {
+				perConn := map[int][]vfWire{}
+				for c, m := range h.ids {
+					if !h.connOpen(c) {
+						continue
+					}
+					for w, tok := range m {
+						wire := vfWire{c, w}
+						wires := h.owner[tok]
+						if e := h.exchByToken(tok); e != nil && !e.finished() && !h.replied[wire] && len(wires) > 0 && wires[len(wires)-1] == wire {
+							perConn[c] = append(perConn[c], wire)
+						}
+					}
+				}
+				conn := -1
+				for c, ws := range perConn {
+					if len(ws) >= 2 && (conn < 0 || c < conn) {
+						conn = c
+					}
+				}
+				if conn < 0 {
+					for i := rapid.IntRange(3, 9).Draw(t, "n"); i > 0; i-- {
+						start(t)
+					}
+					return
+				}
+				ws := perConn[conn]
+				for i := 1; i < len(ws); i++ {
+					for j := i; j > 0 && ws[j].wireID < ws[j-1].wireID; j-- {
+						ws[j], ws[j-1] = ws[j-1], ws[j]
+					}
+				}
+				ws = rapid.Permutation(ws).Draw(t, "order")
+				var stream []byte
+				var toks []uint32
+				for _, w := range ws {
+					tok := h.ids[w.conn][w.wireID]
+					h.nextRTok++
+					rt := h.nextRTok
+					// the opaque tail repeats the wire ID of another exchange of the flood: octets that, read at the wrong
+					// place, name somebody who is waiting
+					other := ws[rapid.IntRange(0, len(ws)-1).Draw(t, "tailNames")].wireID
+					tail := bytes.Repeat([]byte{byte(other >> 8), byte(other)}, (rapid.OneOf(rapid.IntRange(0, 700), rapid.IntRange(900, 1100)).Draw(t, "tail")+1)/2)
+					if rapid.Bool().Draw(t, "tailOdd") {
+						tail = append([]byte{0}, tail...)
+					}
+					b := vfReplyWithTail(w.wireID, tok, rt, tail)
+					h.delivered[rt] = w
+					h.replied[w] = true
+					toks = append(toks, tok)
+					if h.srv.datagram {
+						h.srv.snapshot()[conn].Deliver(b)
+					} else {
+						stream = append(stream, vfFrame(b)...)
+					}
+				}
+				if !h.srv.datagram {
+					if cut := rapid.IntRange(0, len(stream)).Draw(t, "cut"); cut > 0 && cut < len(stream) {
+						h.srv.snapshot()[conn].Deliver(stream[:cut])
+						h.srv.snapshot()[conn].WaitQuiet(vfStall)
+						h.srv.snapshot()[conn].Deliver(stream[cut:])
+					} else {
+						h.srv.snapshot()[conn].Deliver(stream)
+					}
+				}
+				h.srv.snapshot()[conn].WaitQuiet(vfStall)
+				// first whatever has returned is judged (a reply that went to the wrong exchange leaves its own one waiting:
+				// the wrong delivery is the finding, the wait that follows from it is not)
+				for until := time.Now().Add(500 * time.Millisecond); time.Now().Before(until); time.Sleep(200 * time.Microsecond) {
+					all := true
+					for _, tok := range toks {
+						all = all && h.exchByToken(tok).finished()
+					}
+					if all {
+						break
+					}
+				}
+				h.check()
+				for _, tok := range toks {
+					h.waitDone(h.exchByToken(tok), "its reply was consumed (one of a flood)")
+				}
+				h.stats.flood++
+				h.settle()
+			},
 			"replyTwiceAtOnce": func(t *rapid.T) {
 				w, tok, ok := pickWire(t, true)
 				if !ok {
@@ -498,9 +585,9 @@ func TestVfC05Pipeline(t *testing.T) {
 		})
 		h.scan()
 		h.check()
-		nontrivial := h.stats.overlap >= 1 && (h.stats.reorder+h.stats.dup+h.stats.unsolicited+h.stats.late) >= 1
+		nontrivial := h.stats.overlap >= 1 && (h.stats.reorder+h.stats.dup+h.stats.unsolicited+h.stats.late+h.stats.flood) >= 1
 		classes := []string{}
-		for n, v := range map[string]int{"overlap": h.stats.overlap, "reorder": h.stats.reorder, "dup": h.stats.dup, "unsolicited": h.stats.unsolicited, "late": h.stats.late, "server-close": h.stats.closes, "retried": h.stats.retried, "reply-and-close-during-write": h.stats.replyAndClose, "cut-off-datagram": h.stats.cutOff} {
+		for n, v := range map[string]int{"overlap": h.stats.overlap, "reorder": h.stats.reorder, "dup": h.stats.dup, "unsolicited": h.stats.unsolicited, "late": h.stats.late, "server-close": h.stats.closes, "retried": h.stats.retried, "reply-and-close-during-write": h.stats.replyAndClose, "cut-off-datagram": h.stats.cutOff, "reply-flood": h.stats.flood} {
 			if v > 0 {
 				classes = append(classes, n)
 			}
